@@ -8,11 +8,15 @@ from harness import core
 from harness.gen import ir as G
 from harness.impl import docir, hops
 
-MODULE = "CddVerif.Properties.C08Whole"  # imports Properties.C08 (normaliser idempotence) and Properties.C01Whole (whole-docstring round trip)
+MODULE = "CddVerif.Properties.C08All"  # aggregator: C08 (normaliser idempotence), C08Whole (ReST fixpoint), C08Google, C08Numpy
+GOOGLE = ["hop_round1_google", "round2_text_google", "typedUp_closed", "typedUp_in_domain", "hop_in_domain_edd_false", "round2_google", "hop_hop_google", "all_rounds_google",
+          "all_rounds_google_ge", "noVictim_edd_false", "all_rounds_google_edd_false", "round2_text_differs_google", "hop_not_in_domain", "latch_round2_changes", "C08_google_full_false"]
+NUMPY = ["hop_round1_numpy", "round2_text_numpy", "hop_in_domain_edd_false_numpy", "round2_numpy", "hop_hop_numpy", "all_rounds_numpy", "all_rounds_numpy_ok", "noVictim_edd_false",
+         "all_rounds_numpy_edd_false", "round2_text_same_numpy", "hop_not_in_domain_numpy", "latch_round2_changes_numpy", "C08_numpy_full_false"]
 WHOLE = ["round1", "round2", "round2_same_text", "hop_round1", "hop_fixpoint", "hop_hop", "all_rounds", "all_rounds_ok", "emit_answers_noWrap", "all_rounds_noWrap",
          "C08_full_on_domain", "round2_text_differs", "announce_variant_needed", "hop_hop_false_outside", "backtick_type_needed", "outside_domain_still_fixpoint"]
 THEOREMS = ["C08Whole." + t for t in WHOLE] + ["C08.fixpoint_all_rounds", "C08.setDefaultDoc_idempotent", "C08.extract_keeps_line_when_carried", "C08.baseOf_idempotent",
-            "C08.wrapOptional_idempotent", "C08.quote_idempotent", "C08.unquote_not_idempotent"]
+            "C08.wrapOptional_idempotent", "C08.quote_idempotent", "C08.unquote_not_idempotent"] + ["C08Google." + t for t in GOOGLE] + ["C08Numpy." + t for t in NUMPY]
 TRIGGER_DOCS = ["number of items to keep", "whether to shuffle the data", "list of layer names", "the path to the file", "true if verbose",
                 "a string naming the thing", "integer count of epochs", "One of 'a' or 'b'", "dictionary of options", "the float value"]
 JSON_KINDS = ("scalar", "optional", "literal")
@@ -149,11 +153,67 @@ def compare(chk, case, views):
     return True
 
 
+def gn_stream(chk, rng):
+    """C08Google / C08Numpy against the real code: the model's conversion round hopG / hopN (the object of round2_*, all_rounds_*) is run by the driver
+    round after round and compared with the REAL emit -> parse hop on every interface in the theorems' decidable domain; on `NoVictim` the theorem's
+    conclusion (round 2 = round 1) is thereby also observed on the real code; with a latch victim the drift is the model's too (latch_round2_changes)"""
+    import copy
+
+    from harness.props import c01
+
+    n = 300 if chk.quick else 4000
+    cases = []
+    for _ in range(n):
+        ir = c01.gen_whole(rng)
+        ir["returns"] = None
+        for p in ir["params"].values():
+            if isinstance(p.get("default"), float):
+                p["default"] = rng.choice([3, -7, True, False])
+        edd = rng.random() < 0.6
+        cases.append((ir, "docstring-google", "rest", edd, 3))
+        ir2 = copy.deepcopy(ir)
+        for p in ir2["params"].values():
+            p.setdefault("typ", "int" if isinstance(p.get("default"), int) and not isinstance(p.get("default"), bool) else ("bool" if isinstance(p.get("default"), bool) else "Foo"))
+        cases.append((ir2, "docstring-numpydoc", "rest", edd, 3))
+    real = core.guarded_map(impl_rounds, cases, 30.0)
+    mod = core.model_batch([{"op": "c08.google" if c[1] == "docstring-google" else "c08.numpy", "ir": docir.ir_to_model(c[0]), "edd": c[3], "rounds": c[4]} for c in cases])
+    stat = {"google": {"in_domain": 0, "no_victim": 0, "rounds_compared": 0}, "numpy": {"in_domain": 0, "no_victim": 0, "rounds_compared": 0}}
+    n_dis = n_fix = 0
+    for case, views, m in zip(cases, real, mod):
+        if not isinstance(views, list) or not m.get("indomain"):
+            continue
+        st = stat["google" if case[1] == "docstring-google" else "numpy"]
+        st["in_domain"] += 1
+        st["no_victim"] += bool(m.get("novictim"))
+        chk.count(("c08gn", json.dumps(docir.ir_to_model(case[0]), sort_keys=True), case[1:]), len(case[0]["params"]) >= 2)
+        for k, (v, mr) in enumerate(zip(views, m["rounds"])):
+            if "outside" in mr:
+                break
+            st["rounds_compared"] += 1
+            rv = {"raises": v["raises"]} if "raises" in v else {"doc": v["doc"], "params": v["params"], "returns": v["returns"]}
+            mv = {"raises": mr["raises"]} if "raises" in mr else {"doc": mr["ir"]["doc"], "params": mr["ir"]["params"], "returns": mr["ir"]["returns"]}
+            if rv != mv:
+                n_dis += 1
+                chk.disagreement("C08 correspondence: %s hop of the model (hopG / hopN) = real hop, round %d" % (case[1], k + 1), {"ir": docir.ir_to_model(case[0]), "edd": case[3], "format": case[1]}, rv, mv)
+                break
+        # the theorems' conclusion on the model's own rounds (evaluated; the proof covers every interface): without a victim round 2 = round 1
+        if m.get("novictim") and len(m["rounds"]) >= 2 and all("ir" in x for x in m["rounds"][:2]) and m["rounds"][0] != m["rounds"][1]:
+            n_fix += 1
+    chk.coverage["google_numpy_fixpoint_tie"] = stat
+    enough = all(st["in_domain"] > n // 20 and st["no_victim"] > n // 40 for st in stat.values())
+    chk.oblige("correspondence: on InDomainG / InDomainN (decided by the driver) every round of the model's Google and NumPy hop (C08Google.hopG, C08Numpy.hopN) equals the "
+               "real emit -> parse hop: %s" % json.dumps(stat, sort_keys=True), "correspondence", n_dis == 0 and n_fix == 0 and enough,
+               "%d disagreements, %d no-victim interfaces whose model rounds differ" % (n_dis, n_fix))
+
+
 def run(chk: core.Check) -> int:
     chk.lean(MODULE, THEOREMS)
     chk.trusted_base += [
         "Properties/C08Whole.lean: on C01Whole.InDomain the ReST hop emit->parse of the MODEL reaches its fixpoint after one round, for every number of parameters, all flags and every further round (all_rounds); "
         "the model omits parse_adhoc_doc_for_typ (prose type inference), so against the real code this is claimed for trigger-free descriptions only; the real hop is compared with the model's round by round below",
+        "Properties/C08Google.lean, C08Numpy.lean: the same for the Google and NumPy styles on C01Google.InDomainG / C01Numpy.InDomainN, restricted to interfaces without a "
+        "require_default latch victim (NoVictim, decidable); the unrestricted statement is proved FALSE of the model (C08_google_full_false, C08_numpy_full_false) and the real code "
+        "reproduces the witness (known findings with latch_candidate); the model hop hopG / hopN is compared with the real hop round by round (driver ops c08.google / c08.numpy)",
         "theorems are about the docstring-layer normalisers of lean/CddVerif/Model/Doc.lean (tied to the code by C01's correspondence); the per-format fixpoint itself is evaluated on the real emit -> render -> re-read -> parse pipeline for every format, rounds 1..4",
     ]
     rng = chk.rng
@@ -206,6 +266,7 @@ def run(chk: core.Check) -> int:
                     break
         chk.oblige("correspondence: model docstring-rest hop = real hop on every round for %d interfaces (%d left the model's domain)" % (len(sub), n_out),
                    "correspondence", n_dis == 0, "%d disagreements" % n_dis)
+        gn_stream(chk, rng)
     chk.sample({"interface": docir.ir_to_model(cases[0][0]), "format": cases[0][1], "views_per_round": res[0] if isinstance(res[0], list) else None})
     return chk.finish("interfaces incl. type-hint trigger words, non-suffix defaults (where legal) and quoted string defaults x 11 formats x styles x emit_default_doc x 3-4 rounds; "
                       "non-trivial = the format accepts the interface (round 1 parses)")
